@@ -6,6 +6,7 @@
    observation (harness/e1: every incarnation's Setup receives the case's channel), not of the model. *)
 From Coq Require Import List ZArith Arith Bool.
 From FB Require Import Model.Exec Model.TraceSpec Model.ExecInv Proofs.ExecMain.
+From FB Require Lib.Sexp Model.Settle Proofs.ExecReturn.
 Import ListNotations.
 
 (* For EVERY schedule: the source events of the trace are exactly, oldest first,
@@ -72,9 +73,22 @@ Example C18_start_after_failed_setup_rejected :
   = [(18, 3); (18, 7)].
 Proof. exact start_after_prepfail_rejected. Qed.
 
+(* "as often as needed": the run never just ends after an error return.  Execute returns only after some incarnation
+   returned nil from Start (clause 18.8 of the judge: on the trace, and on the snapshots of the lockstep driver). *)
+Theorem C18_returned_needs_nil_end : forall nt tmo s, reachable nt tmo s ->
+  (match mn s with MCloseRoots | MWait | MDone => src s = SClosed | _ => True end)
+  /\ (forall c, In (TDone c) (tr s) -> mn s = MDone)
+  /\ (src s = SClosed -> any_nil_end (tr s) = true).
+Proof. exact ExecReturn.returned_needs_nil_end. Qed.
+Theorem C18_returned_snapshot_src_closed : forall nt tmo s, reachable nt tmo s ->
+  Settle.main_code s <> 0%Z -> Settle.src_code s = Sexp.T [Sexp.L 2; Sexp.L 0]%Z.
+Proof. exact ExecReturn.returned_snapshot_src_closed. Qed.
+
 Print Assumptions C18_source_history.
 Print Assumptions C18_start_needs_prep.
 Print Assumptions C18_nothing_after_failed_setup.
 Print Assumptions C18_failed_setup_is_final.
 Print Assumptions C18_nil_is_final.
 Print Assumptions C18_emit_needs_running.
+Print Assumptions C18_returned_needs_nil_end.
+Print Assumptions C18_returned_snapshot_src_closed.
